@@ -256,6 +256,24 @@ pyand = z3.Function("pyand", z3.IntSort(), z3.IntSort(), z3.IntSort())
 pyor = z3.Function("pyor", z3.IntSort(), z3.IntSort(), z3.IntSort())
 pyxor = z3.Function("pyxor", z3.IntSort(), z3.IntSort(), z3.IntSort())
 
+def cvc5_recheck(solver, tlimit_ms=4000):
+    """second opinion on a query z3 answered unsat: 'unsat' | 'sat' (a disagreement) | 'unknown' | 'timeout' | 'error' (cvc5 could not read the query)"""
+    import subprocess, tempfile
+    fresh = z3.Solver(); fresh.add(solver.assertions())          # a solver that has not run yet prints no z3-internal model-converter lines
+    txt = "(set-logic ALL)\n" + fresh.sexpr() + "\n(check-sat)\n"
+    with tempfile.NamedTemporaryFile("w", suffix=".smt2", delete=False) as f:
+        f.write(txt); fn = f.name
+    try:
+        p = subprocess.run(["/usr/bin/cvc5", "--strings-exp", "--tlimit=%d" % tlimit_ms, fn], capture_output=True, text=True, timeout=tlimit_ms / 1000 + 10)
+        out = (p.stdout.strip().splitlines() or [""])[0]
+        if out in ("unsat", "sat", "unknown"): return out
+        return "timeout" if "timeout" in (p.stdout + p.stderr) else "error"
+    except Exception:      # pragma: no cover
+        return "timeout"
+    finally:
+        try: os.unlink(fn)
+        except OSError: pass
+
 def fdiv(a, b):
     """python floor division on z3 ints (z3 '/' is euclidean: differs for negative divisor)"""
     if isinstance(b, int) and b > 0: return a / b
@@ -286,6 +304,7 @@ class Engine:
         self.fresh_n = 0
         self.inputs = {}
         self.keep_smt2 = False
+        self.cvc5_recheck = bool(os.environ.get("PYVC_CVC5"))
         self.shift_src = {}
         self.func_stack = []
         self.classes = []
@@ -546,6 +565,10 @@ class Engine:
                 rec["secs"] = time.time() - t
         if r == z3.unsat:
             rec["status"] = "proved"
+            if getattr(self, "cvc5_recheck", False):
+                rec["cvc5"] = cvc5_recheck(s)
+                if rec["cvc5"] == "sat":
+                    rec["status"] = "unknown"; rec["detail"] = "solver disagreement: z3 unsat, cvc5 sat"; return rec
             if region is not None:
                 r2, s2 = self.check([z3.Not(cond)])
                 if r2 == z3.sat: rec["status"] = "known-region"; rec["witness"] = self.witness_of(s2.model())
